@@ -238,7 +238,7 @@ def judge(ctx, fn, infer, strip_item, u, opts, extra=None, count=True):
             ctx.count("port-nondefault-kept")
         # path
         best = None
-        for ip, itr in ((rin["path"], rin["trailing_slash"]), (rin["path_alt"], rin["trailing_slash_alt"])):
+        for ip, itr in ((rin["path"], rin["trailing_slash"]),):
             cands = path_candidates(ip, opts)
             if rout["path"] in cands:
                 best = (cands[rout["path"]], itr, ip)
